@@ -1,5 +1,7 @@
 package main
 
+import "go/types"
+
 // Centrally maintained rules attached to properties whose main rule files were
 // written separately: lockset tables (T8), determinism closures (T11) and the
 // slice-aliasing rule.
@@ -20,6 +22,11 @@ func init() {
 		},
 		Explanation: "R08.6 (cache freshness, sibling rule over the LRU caches): in lruAccounts/lruResources/lruKV.write an entry already in the cache is overwritten only on the true edge of cached.Before(new) (so a late, older DB row queued by a reader can never replace the row written by a newer commit), and each Before is `receiver.Round < other.Round`.",
 		Floor:       map[string]int{"R08.6": 6},
+	})
+	extend("C07", Extension{
+		Run:         ruleC07Generated,
+		Explanation: "R07.2 (generated code agreement, via the msgp extractor shared with C40): for every struct type of package agreement that has generated MarshalMsg/UnmarshalMsgWithState — the persisted player, routers, trackers, stores and actions among them — the keys emitted by the encoder, the case labels accepted by the decoder and go-codec's effective field names of the struct are the same set, so a stale msgp_gen.go cannot silently drop or rename a persisted field.",
+		Floor:       map[string]int{"R07.2": 30},
 	})
 	extend("C13", Extension{
 		Run: func(c *Ctx) {
@@ -59,4 +66,84 @@ func init() {
 		Floor:       map[string]int{"R19.6": 2},
 		Patterns:    []string{"./data/transactions/logic"},
 	})
+}
+
+// ruleC07Generated: R07.2 — encoder keys == decoder labels == struct tags for
+// every generated struct type of package agreement.
+func ruleC07Generated(c *Ctx) {
+	m := hMsgpExtract(c)
+	names := []string{}
+	for n := range m.ByName {
+		if len(n) > 10 && n[:10] == "agreement." {
+			names = append(names, n)
+		}
+	}
+	sortStrings(names)
+	for _, n := range names {
+		g := m.ByName[n]
+		pos := c.Pos(g.Named.Obj().Pos())
+		if len(g.Problems) > 0 {
+			c.Unk("R07.2", n, pos, "generated code not understood: "+g.Problems[0])
+			continue
+		}
+		if _, isStruct := g.Named.Underlying().(*types.Struct); !isStruct {
+			continue
+		}
+		if g.MarshalForwards || g.UnmarshalForwards {
+			c.Ok("R07.2", n, pos, "forwards to another generated type")
+			continue
+		}
+		b, s := g.TopBlock(), g.TopSwitch()
+		if b == nil || s == nil {
+			c.Unk("R07.2", n, pos, "no top-level map block / field switch found in the generated code")
+			continue
+		}
+		if len(b.Problems) > 0 || len(s.Problems) > 0 {
+			p := append(append([]string{}, b.Problems...), s.Problems...)
+			c.Unk("R07.2", n, pos, "generated code not understood: "+p[0])
+			continue
+		}
+		want := map[string]bool{}
+		for _, f := range b.S.Names() {
+			want[f] = true
+		}
+		enc := map[string]bool{}
+		for _, k := range b.Keys {
+			enc[k.Name] = true
+		}
+		dec := map[string]bool{}
+		for _, cs := range s.Cases {
+			for _, l := range cs.Labels {
+				dec[l] = true
+			}
+		}
+		diff := ""
+		for f := range want {
+			if !enc[f] {
+				diff += " encoder misses " + f + ";"
+			}
+			if !dec[f] {
+				diff += " decoder misses " + f + ";"
+			}
+		}
+		for f := range enc {
+			if !want[f] {
+				diff += " encoder emits unknown key " + f + ";"
+			}
+		}
+		for f := range dec {
+			if !want[f] {
+				diff += " decoder accepts unknown key " + f + ";"
+			}
+		}
+		c.Check(diff == "", "R07.2", n, pos, "encoder keys, decoder labels and codec field names agree ("+itoa(len(want))+" fields)"+diff)
+	}
+}
+
+func sortStrings(s []string) {
+	for i := 1; i < len(s); i++ {
+		for j := i; j > 0 && s[j] < s[j-1]; j-- {
+			s[j], s[j-1] = s[j-1], s[j]
+		}
+	}
 }
